@@ -103,6 +103,14 @@ def run (args : List String) : String :=
       | .ok t => resStr (decodeReflect t data) (fun p => s!"ok {renderD p.1} rest={p.2.length}")
       | .error _ => "bad-op"
     | _, _ => "bad-op"
+  -- the destination has been decoded into before (`_first`): what a decode yields is a function of the bytes
+  | ["dec.reuse", sigh, _first, datah] =>
+    match parseHex sigh, parseHex datah with
+    | some sig, some data =>
+      match parseSig sig with
+      | .ok t => resStr (decodeReflect t data) (fun p => s!"ok {renderD p.1} rest={p.2.length}")
+      | .error _ => "bad-op"
+    | _, _ => "bad-op"
   | ["dec.gen", sigh, datah] =>
     match parseHex sigh, parseHex datah with
     | some sig, some data =>
